@@ -605,6 +605,33 @@ theorem cex_skipped_batch_below :
     ¬ inWindow (window ⟨50, 200⟩ (some cexSkipPts) ⟨55, 55⟩) 305 ∧ ¬ ((lastD cexSkipPts).ts ≤ cexSkipTs 305) := by
   decide
 
+/-- Finding #62 (open; placeholder id): MONOTONE data, but the index notifications of two batches arrive in the other order
+than the batches were stored (concurrent writers; `Service.Write` notifies after the chunk's write lock is gone). Batch A =
+records 0…299 (ts 1000 + q), batch B = 300…599, batch C = 600…899, D = 900…1199 — all with ts = 1000 + q. Notifications
+arrive A, C, B, D: B's interval is merged behind C's point and the last point becomes (C's maximum, B's LAST RECORD);
+`RANGE [1600:1610]` (records 600…610 of batch C) then gets a window that ends at position 599. With the notifications in
+stored order the same range gets a window that contains 600…610 (`window_complete` applies: the index is sound). -/
+def cexReorderTs (q : Nat) : Int := 1000 + q
+def cexReorderIv (a b : Nat) : Iv := ⟨⟨cexReorderTs a, a⟩, ⟨cexReorderTs b, b⟩⟩
+def cexReorderLate : List Pt :=
+  add (add (add (add [] (cexReorderIv 0 299)) (cexReorderIv 600 899)) (cexReorderIv 300 599)) (cexReorderIv 900 1199)
+def cexReorderInOrder : List Pt :=
+  add (add (add (add [] (cexReorderIv 0 299)) (cexReorderIv 300 599)) (cexReorderIv 600 899)) (cexReorderIv 900 1199)
+theorem cex_reordered_notification :
+    add (add (add [] (cexReorderIv 0 299)) (cexReorderIv 600 899)) (cexReorderIv 300 599) = [⟨1000, 0⟩, ⟨1299, 299⟩, ⟨1899, 599⟩] ∧
+    cexReorderLate = [⟨1000, 0⟩, ⟨1299, 299⟩, ⟨1899, 599⟩, ⟨2199, 1199⟩] ∧
+    window ⟨1000, 2199⟩ (some cexReorderLate) ⟨1600, 1610⟩ = (299, 599) ∧
+    (∀ q, 600 ≤ q → q ≤ 610 → ¬ inWindow (window ⟨1000, 2199⟩ (some cexReorderLate) ⟨1600, 1610⟩) q) ∧
+    inWindow (window ⟨1000, 2199⟩ (some cexReorderInOrder) ⟨1600, 1610⟩) 600 ∧
+    inWindow (window ⟨1000, 2199⟩ (some cexReorderInOrder) ⟨1600, 1610⟩) 610 := by
+  refine ⟨by decide, by decide, by decide, ?_, by decide, by decide⟩
+  intro q h1 _ h
+  have hw : window ⟨1000, 2199⟩ (some cexReorderLate) ⟨1600, 1610⟩ = (299, 599) := by decide
+  rw [hw] at h
+  have := h.2
+  simp only at this
+  omega
+
 /-! ## full statements that are only partly proved -/
 
 /-- Top level, full strength: for EVERY history of writes and rebuilds the ranged read of a partition equals the
